@@ -211,3 +211,10 @@ func Verif_C08_Q4_VerdictAfterRotation() {
 // written must be the canonical entry AS RE-READ under the lock (the scenario stub
 // answers every lookup arbitrarily, including "gone"), never the location seen before.
 func Verif_C08_Q6_DeduplicatingUploadRechecks() { verifScenarioHierPut() }
+
+// Verif_C08_Q8_ReleaseKeepsListConsistent: a quarantine releases blocks from the front of
+// the (persistent) block list, possibly blocks whose epochs have not been synchronized
+// yet. Every list operation - PopFront in particular - preserves the representation
+// invariant from an arbitrary valid state (counters never negative, wake-ups consistent),
+// so uploads continue after a quarantine.
+func Verif_C08_Q8_ReleaseKeepsListConsistent() { verifScenarioPBLMethod() }
